@@ -134,13 +134,14 @@ theorem resolveRef_ne_err (env : Env) (recDoc : ResolveDoc) (D : Doc) (hst : D.s
 theorem resolveRefsLoop_ne_err (env : Env) (recDoc : ResolveDoc) (hrec : RecSpec env recDoc)
     (hl : env.loader = none) (D : Doc) (hst : D.st = env.st) (ret : Url) (huids : D.UniqueIds ret)
     (hstore : ∀ x, D.Has x → (D.st.get? x).isSome = true) :
-    ∀ ids s, StaticInv D ret s → KeysIn D.Has D.root (Uri.toString ret) s → (∀ id ∈ ids, D.Has id) →
+    ∀ ids s, StaticInv D ret s → KeysIn D.Has D.root (Uri.toString ret) s → s.draftOf D.root = D.draft →
+      (∀ id ∈ ids, D.Has id) →
       D.RefsDesignate ret ids → resolveRefsLoop env recDoc D.root ids s ≠ .err := by
   intro ids
   induction ids with
-  | nil => intro s _ _ _ _; rw [resolveRefsLoop]; simp
+  | nil => intro s _ _ _ _ _; rw [resolveRefsLoop]; simp
   | cons id rest ih =>
-    intro s hinv hkeys hids hdes
+    intro s hinv hkeys hdraft hids hdes
     have hid : D.Has id := hids id (by simp)
     rw [resolveRefsLoop]
     split
@@ -169,11 +170,14 @@ theorem resolveRefsLoop_ne_err (env : Env) (recDoc : ResolveDoc) (hrec : RecSpec
           exact Frozen.refl _
       have hinv1 := staticInv_frozen D ret f1 hinv
       have hkeys1 := keysIn_frozen f1 hkeys
+      have hdraft1 : s1.draftOf D.root = D.draft := by rw [← hdraft]; exact draftOf_frozen f1 D.root
       refine bind_ne_err ?_ fun s2 h2 => ?_
       · split
         · rename_i hne
+          rw [hdraft1] at hne
+          simp only [Bool.and_eq_true, bne_iff_ne, ne_eq, beq_iff_eq] at hne
           exact bind_ne_err (resolveRef_ne_err env recDoc D hst ret s1 id n.dynamicRef hinv1 huids hkeys1 hid hstore
-            (d2 (by simpa using hne))) fun _ _ => by simp
+            (d2 hne.2 hne.1)) fun _ _ => by simp
         · simp
       have f2 : Frozen s1 s2 := by
         split at h2
@@ -188,6 +192,7 @@ theorem resolveRefsLoop_ne_err (env : Env) (recDoc : ResolveDoc) (hrec : RecSpec
           subst h2
           exact Frozen.refl _
       exact ih s2 (staticInv_frozen D ret f2 hinv1) (keysIn_frozen f2 hkeys1)
+        (by rw [← hdraft1]; exact draftOf_frozen f2 D.root)
         (fun x hx => hids x (List.mem_cons_of_mem _ hx))
         (fun x hx => hdes x (List.mem_cons_of_mem _ hx))
 
@@ -273,8 +278,11 @@ theorem resolveDocStep_ne_err (env : Env) (recDoc : ResolveDoc) (hrec : RecSpec 
     | some i0 => exact ⟨_, rfl, rfl⟩
   · have hB' : resolveURIsLoop env D.draft root (env.st.size + 2) [(root, root)]
         (beforeURIs root baseURI D.draft fresh {}) = .ok sB := hB
-    obtain ⟨hinv, _, _, _⟩ := staticInv_afterURIs env root baseURI D.draft fresh {} sB hcs hB'
+    obtain ⟨hinv, ⟨dB, hdB, hdBdr⟩, _, _⟩ := staticInv_afterURIs env root baseURI D.draft fresh {} sB hcs hB'
       (sound_nil _) (fun e he => absurd he (by simp))
+    have hdraftOf : (afterURIs root baseURI sB).draftOf D.root = D.draft := by
+      show (match sB.doc? root with | some d => d.draft | none => Draft.d2020) = D.draft
+      rw [hdB]; exact hdBdr
     have hkeysB : KeysIn D.Has root (Uri.toString baseURI) sB :=
       resolveURIsLoop_keysIn env D.draft root D.Has _ _ _ _ _ hB'
         (keysIn_beforeURIs env D.Has root baseURI D.draft fresh {} _ hcs (fun _ _ => rfl))
@@ -283,7 +291,7 @@ theorem resolveDocStep_ne_err (env : Env) (recDoc : ResolveDoc) (hrec : RecSpec 
       exact ⟨d, hd, h0, hall⟩
     show resolveRefsLoop env recDoc D.root _ (afterURIs root baseURI sB) ≠ .err
     exact resolveRefsLoop_ne_err env recDoc hrec hl D rfl baseURI huids
-      (has_store env.st _ root fresh hcs) _ _ hinv hkeys
+      (has_store env.st _ root fresh hcs) _ _ hinv hkeys hdraftOf
       (allNodes_has D _ _ (by
         intro w hw
         rw [List.mem_singleton.mp hw]
